@@ -259,7 +259,7 @@ C06_Partition(X) ==
 
 \* function-entry markers slide like labels over wholly deleted blocks, but
 \* only onto a block of the same function (and never with retarget_to_proxy)
-ExpEntryFacts(X, nm) ==
+EntryFacts(X, nm, strict) ==
   LET L == X.E[nm]
       P == X.P[nm]
       \* index of the next unit after item i (0 if none)
@@ -271,13 +271,24 @@ ExpEntryFacts(X, nm) ==
                    \* the same function, not retargeted to a proxy
                    /\ \A q \in i..k : L[q].t = "pt" =>
                          LET b == BlockByU(X.t.pre, L[q].u)
-                         IN  b.k = "code" /\ L[i].nm \in Range(b.fn) /\ ~ToProxy(X.t.reqs, b.u)
+                         IN  /\ ~ToProxy(X.t.reqs, b.u)
+                             /\ IF b.k = "code" THEN L[i].nm \in Range(b.fn) ELSE ~strict
   IN  {[s |-> nm, p |-> P[i], fn |-> L[i].nm] : i \in {k \in DOMAIN L : L[k].t = "ent" /\ ok(k)}}
+ExpEntryFacts(X, nm) == EntryFacts(X, nm, TRUE)
+\* When the deleted entry block is followed by deleted DATA and then by code of the
+\* same function, "the next block" of the statement is ambiguous: the data block at
+\* the time of the deletion (no promotion), or the function's block in the edited
+\* listing (promotion).  The library does either, depending on whether the entry
+\* block had to be kept as a zero-sized block for a while; both are accepted.
+MayEntryFacts(X, nm) == EntryFacts(X, nm, FALSE)
 ObsEntryFacts(st, nm) ==
   LET sec == SecByName(st, nm)
   IN  UNION {{[s |-> nm, p |-> sec.blocks[i].p, fn |-> sec.blocks[i].ent[j]] : j \in DOMAIN sec.blocks[i].ent} :
              i \in {k \in DOMAIN sec.blocks : sec.blocks[k].n > 0}}
-C06_Entries(X) == \A nm \in SecNames(X.t.pre) : ExpEntryFacts(X, nm) = ObsEntryFacts(X.t.post, nm)
+C06_Entries(X) ==
+  \A nm \in SecNames(X.t.pre) :
+     LET obs == ObsEntryFacts(X.t.post, nm)
+     IN  ExpEntryFacts(X, nm) \subseteq obs /\ obs \subseteq MayEntryFacts(X, nm)
 \* a function inserted with register_insert_function appears in all three tables
 \* with its symbol as name and entry
 C06_InsertedFunction(X) ==
